@@ -10,7 +10,7 @@
     value of type [t]. *)
 From Coq Require Import Permutation.
 From QV Require Import Common.Prelude Codec.Varint Codec.Model Hash.Model Hash.Framing Hash.Unordered
-  Hash.Fingerprint Hash.Examples.
+  Hash.Fingerprint Hash.WellTyped Hash.Examples.
 Open Scope N_scope.
 
 (** Different values feed different streams: the stream determines the value. *)
@@ -70,6 +70,11 @@ Theorem C13_fingerprint_discriminates :
       fingerprint sip seed t v = fingerprint sip seed t v' -> veq t v v'.
 Proof. exact fingerprint_discriminates. Qed.
 
+(** The correspondence check evaluates [wtb] on every value the harness derives from a real
+    Rust value: those values lie in the domain [wt] of the theorems above. *)
+Theorem C13_domain_check_sound : forall t v, wtb t v = true -> wt t v.
+Proof. exact wtb_sound. Qed.
+
 (** the hypotheses are satisfiable and the conclusions are not trivial (Hash/Examples.v) *)
 Check wt_vx : wt tx vx.
 Check streams_differ_syntactically : fstream tx vx <> fstream tx vx'.
@@ -89,3 +94,4 @@ Print Assumptions C13_history_free.
 Print Assumptions C13_fingerprint_deterministic.
 Print Assumptions C13_roundtrip_stable.
 Print Assumptions C13_fingerprint_discriminates.
+Print Assumptions C13_domain_check_sound.
